@@ -11,7 +11,9 @@ const vc08Alphabet = " :,.=-0a>&\xc3\xff"
 // symbolic holes (a panic or a run-away loop is a violation).  BV8.
 func VH_C08_ReadTemplates() {
 	format := choose(3)
-	nh := vbound("holebytes", 2, 3)
+	// one template line after the valid prefix; holes of 0..2 (quick) / 0..3 (thorough) bytes. Two template lines were
+	// tried: tens of millions of paths, not finished in 40 min, so they are outside the bound.
+	nh, nl := vbound("holebytes", 2, 3), 1
 	hole := func() string { return vsymstr(choose(nh+1), vc08Alphabet) }
 	var tmpl [][]string
 	switch format {
@@ -22,7 +24,6 @@ func VH_C08_ReadTemplates() {
 	default: // ssa
 		tmpl = [][]string{{"[Events]"}, {"Format:", ""}, {"Dialogue:", ""}, {"[V4 Styles]"}, {"Style:", ""}, {"[Script Info]"}, {"PlayResX:", ""}, {""}}
 	}
-	nl := vbound("lines", 1, 2)
 	doc := ""
 	switch format {
 	case 0:
